@@ -125,6 +125,17 @@ def wrapper_post(prop, kind):
                 before = [e for e in evs[:evs.index(sl[-1])] if e.kind == 'perf_counter'][-1].data['value'].z
                 excess = t1 - before - sl[-1].data['seconds'].z
                 res.oblige(p, f'{prop}.{kind}.debt_bounded_below_by_sleep_excess[{sig}]', z3.And(excess >= 0, debt1 >= -excess))
+                # several streams share the debt: the wall-clock interval a stream credits against it (between the clock
+                # reading before the sleep and the one after it) lies inside its own critical section, so the intervals
+                # credited by different streams are disjoint and their sum is real time (time spent waiting for the lock
+                # is another stream's credited sleep and must not be credited twice)
+                lock = '_read_lock' if kind == 'read' else '_write_lock'
+                i_sl = evs.index(sl[-1])
+                pcs_before = [e for e in evs[:i_sl] if e.kind == 'perf_counter']
+                pcs_after = [e for e in evs[i_sl:] if e.kind == 'perf_counter']
+                res.oblige(p, f'{prop}.{kind}.credited_interval_inside_critical_section[{sig}]', z3.BoolVal(
+                    bool(pcs_before) and bool(pcs_after) and lock in pcs_before[-1].locks and lock in pcs_after[0].locks
+                    and lock in sl[-1].locks))
             else:
                 res.oblige(p, f'{prop}.{kind}.debt_not_lowered_without_sleep[{sig}]', debt1 >= debt0)
             # every mutation of the shared amortised-sleep field happens under the limiter's lock
